@@ -1,5 +1,5 @@
 """C08 — I/O failures are reported, never swallowed; nothing acknowledged is lost."""
-from gen import lib, fault
+from gen import lib, fault, wfault
 
 PROP_FILE = "props/C08.v"
 RULE = ("fault: histories of puts/deletes/batches/gets/waits/compact_range/reopen on SimFs; a "
@@ -10,7 +10,10 @@ RULE = ("fault: histories of puts/deletes/batches/gets/waits/compact_range/reope
         "of the class/kind). Oracle: every write returns Ok (then later reads see it or fail) or an "
         "error (then it is present wholly or not at all); after disarming and reopening the contents "
         "are one of the allowed maps. Panics and hangs are violations. Non-trivial: the fault fired; "
-        "distinct by (history, position, mode).")
+        "distinct by (history, position, mode). wfault: one log; an append fails after letting a chosen "
+        "number of bytes through (0, a few, a header, thousands); results of every write, the scan "
+        "during the run, the exact bytes of the log and the scan after reopen must equal the extracted "
+        "model Faults.f_run.")
 TRUSTED = ["SimFs fault injection at the public FileSystem trait; failures of list_dir are not injected (the code treats a failed listing as 'nothing to delete')"]
 ASSUMPTIONS = ["one injected fault per run; single client"]
 
@@ -31,14 +34,25 @@ def corpus():
 
 
 def suites(tier, seed, rng):
-    return [fault.FaultSuite(corpus() + gen_cases(tier, rng))]
+    return [fault.FaultSuite(corpus() + gen_cases(tier, rng)),
+            wfault.WFaultSuite(wfault.gen_cases(tier, rng))]
 
 
 def replay_suites(rp):
+    if rp.get("suite") == "wfault":
+        return [wfault.WFaultSuite([rp["case"]])]
     return [fault.FaultSuite([rp["case"]])]
 
 
+def still_fails(suite, case, workdir):
+    if suite == "wfault":
+        return bool(wfault.WFaultSuite([case]).execute(workdir, tag="sh")[0])
+    return False
+
+
 def shrink(f, workdir):
+    if f["suite"] == "wfault":
+        return lib.shrink_case("wfault", f["case"], lambda c: still_fails("wfault", c, workdir)), f.get("detail", "")
     return fault.shrink(f["case"], workdir)
 
 
@@ -47,4 +61,6 @@ def nontrivial(suite, case):
 
 
 def classify(suite, case):
+    if suite == "wfault":
+        return "wfault:partial=" + case.split(" ")[1].split(":")[2]
     return "fault:ops<%d" % (30 if len(case.split(" ")) < 30 else 60)
